@@ -158,6 +158,7 @@ Module TErr.
   Definition eso_prices : N := 1917.    (* "Non-equal ESO sale prices" *)
   Definition bad_action : N := 1918.    (* TxAction::try_from *)
   Definition post_no_tx : N := 1919.    (* "No transaction found in Morgan Stanley/Etrade ..." *)
+  Definition eso_incomplete : N := 1920. (* "Exercise details are incomplete: n grants, but ... rows" *)
 End TErr.
 Definition rejn {A} (n : N) : res A := Rej (RejOther n).
 
@@ -491,7 +492,8 @@ Definition u64_or_zero (t : text) : N :=
 
 Record eso_grant : Type := { g_num : N; g_fmv : Qc; g_shares : Qc; g_sale : Qc; g_fee : Qc }.
 
-(* a.iter().zip(b).zip(c).zip(d).zip(e).zip(f): stops at the shortest *)
+(* a.iter().zip(b).zip(c).zip(d).zip(e).zip(f): stops at the shortest; since the fix c454485 it is only
+   reached with six lists of the same length *)
 Fixpoint zip_grants (idx : list text) (nums : list N) (fmvs shares sales fees : list Qc) : list eso_grant :=
   match idx, nums, fmvs, shares, sales, fees with
   | _ :: i, n :: ns, f :: fs, sh :: shs, sa :: sas, fe :: fes =>
@@ -538,6 +540,9 @@ Definition m_exercise_date (s : text) : option ((text * text * text) * text) :=
 Definition m_eso_shares_sold (s : text) : option (text * text) :=
   r <~~ lit k_shares_sold s ;; r1 <~~ sp1 r ;; run1 is_dcd r1.
 
+Definition rows_complete (n a b c d e : nat) : bool :=
+  Nat.eqb a n && Nat.eqb b n && Nat.eqb c n && Nat.eqb d n && Nat.eqb e n.
+
 Record eso_data : Type := {
   e_sym : text; e_type : text; e_date : Z; e_sold : Qc; e_grants : list eso_grant
 }.
@@ -552,6 +557,9 @@ Definition parse_eso_data (s : text) : res eso_data :=
       shares <- search_for_dec_rows k_shares_exercised false body ;;
       sales <- search_for_dec_rows k_sale_price true body ;;
       fees <- search_for_dec_rows k_comission_fee true body ;;
+      (* every grant must come with exactly one row of each kind (fix c454485) *)
+      if negb (rows_complete (length idx) (length nums) (length fmvs) (length shares) (length sales) (length fees))
+      then rejn TErr.eso_incomplete else
       sym <- parse_common s ;;
       '(ty, _) <- get1 m_exercise_type s ;;
       '(d, _) <- get1 m_exercise_date s ;;
